@@ -1,8 +1,8 @@
 // C11: (1) the PROPOSED repair of finding S3, pre-verified; (2) the dump of the ring length for the
 // translator tie.  Injected next to shared_test.go (vDiagram, vHost come from there).
 //
-// (1) vFixedHostWrapper below is, line for line, the hostWrapper of props/C11/NOTES.md ("smallest
-// patch"): the ring is gone, the wrapper tracks the status its instances hold and replays the canonical
+// (1) vFixedHostWrapper below is, line for line, the hostWrapper of work/C11/fix/S3.diff (the Go patch; props/C11/NOTES.md
+// "Repair of S3"): the ring is gone, the wrapper tracks the status its instances hold and replays the canonical
 // path Starting [, Stopping], current to a late instance.  It is NOT the code of /repo; it lives here so
 // that the patch text itself is run against its Coq model (Model.v sc2_step, case kind 4) and against
 // the direct oracle "every instance ends in the same status and is delivered the same events after its
@@ -10,87 +10,87 @@
 package sharedcomponent
 
 import (
+	"container/ring"
 	"context"
 	"fmt"
+	"reflect"
 	"sync"
 	"testing"
+	"unsafe"
 
 	"go.opentelemetry.io/collector/component"
 	"go.opentelemetry.io/collector/component/componentstatus"
 )
 
 type vFixedHostWrapper struct {
-	host    component.Host
-	sources []componentstatus.Reporter
-	current *componentstatus.Event // last event the instances' state machines accepted; nil before Starting
-	lock    sync.Mutex
-}
-
-// vAccepts mirrors the transition relation of service/internal/status (docs/component-status.md).
-func vAccepts(cur, next componentstatus.Status) bool {
-	switch cur {
-	case componentstatus.StatusNone:
-		return next == componentstatus.StatusStarting
-	case componentstatus.StatusStarting:
-		return next == componentstatus.StatusOK || next == componentstatus.StatusRecoverableError ||
-			next == componentstatus.StatusPermanentError || next == componentstatus.StatusFatalError ||
-			next == componentstatus.StatusStopping
-	case componentstatus.StatusOK:
-		return next == componentstatus.StatusRecoverableError || next == componentstatus.StatusPermanentError ||
-			next == componentstatus.StatusFatalError || next == componentstatus.StatusStopping
-	case componentstatus.StatusRecoverableError:
-		return next == componentstatus.StatusOK || next == componentstatus.StatusPermanentError ||
-			next == componentstatus.StatusFatalError || next == componentstatus.StatusStopping
-	case componentstatus.StatusPermanentError:
-		return next == componentstatus.StatusStopping
-	case componentstatus.StatusStopping:
-		return next == componentstatus.StatusRecoverableError || next == componentstatus.StatusPermanentError ||
-			next == componentstatus.StatusFatalError || next == componentstatus.StatusStopped
-	}
-	return false
+	host           component.Host
+	sources        []componentstatus.Reporter
+	lastValidEvent *componentstatus.Event // the last event the state machines of the sources accepted
+	lock           sync.Mutex
 }
 
 func (h *vFixedHostWrapper) Report(e *componentstatus.Event) {
+	// Only remember an event if it will be emitted and the sources will accept it.
 	h.lock.Lock()
 	defer h.lock.Unlock()
-	if len(h.sources) > 0 {
-		cur := componentstatus.StatusNone
-		if h.current != nil {
-			cur = h.current.Status()
-		}
-		if vAccepts(cur, e.Status()) {
-			h.current = e
-		}
+	if len(h.sources) > 0 && vAccepts(h.lastValidEvent.Status(), e.Status()) {
+		h.lastValidEvent = e
 	}
 	for _, s := range h.sources {
 		s.Report(e)
 	}
 }
 
+// addSource brings a late source to the current status along the shortest legal path
+// (Starting, [Stopping,] current), however many events were reported before it was added.
 func (h *vFixedHostWrapper) addSource(s componentstatus.Reporter) {
 	h.lock.Lock()
 	defer h.lock.Unlock()
-	if h.current != nil {
-		if h.current.Status() != componentstatus.StatusStarting {
+	if st := h.lastValidEvent.Status(); st != componentstatus.StatusNone {
+		if st != componentstatus.StatusStarting {
 			s.Report(componentstatus.NewEvent(componentstatus.StatusStarting))
 		}
-		if h.current.Status() == componentstatus.StatusStopped {
+		if st == componentstatus.StatusStopped {
 			s.Report(componentstatus.NewEvent(componentstatus.StatusStopping))
 		}
-		s.Report(h.current)
+		s.Report(h.lastValidEvent)
 	}
 	h.sources = append(h.sources, s)
+}
+
+// vAccepts (accepts in the patch) reports whether the status state machine (docs/component-status.md) moves from cur to next.
+func vAccepts(cur, next componentstatus.Status) bool {
+	switch cur {
+	case componentstatus.StatusNone:
+		return next == componentstatus.StatusStarting
+	case componentstatus.StatusPermanentError:
+		return next == componentstatus.StatusStopping
+	case componentstatus.StatusStopping:
+		return componentstatus.StatusIsError(next) || next == componentstatus.StatusStopped
+	case componentstatus.StatusFatalError, componentstatus.StatusStopped:
+		return false
+	}
+	// Starting, OK, RecoverableError: to any other of OK, RecoverableError, PermanentError, FatalError, Stopping.
+	return next != cur && next >= componentstatus.StatusOK && next <= componentstatus.StatusStopping
 }
 
 func TestVerifC11Repair(t *testing.T) {
 	out := vOpen()
 	defer out.Close()
 	rng := vNewRand(1119)
+	// the relation the patch carries a copy of is the documented diagram, on all 64 pairs
+	for a := 0; a < 8; a++ {
+		for b := 0; b < 8; b++ {
+			if vAccepts(componentstatus.Status(a), componentstatus.Status(b)) != vDiagram(a, b) {
+				out.Oracle("repair-accepts-differs-from-diagram", "", fmt.Sprintf("accepts(%d, %d) = %v", a, b, !vDiagram(a, b)))
+			}
+		}
+	}
 	n := vBudget(300, 20)
 	for c := 0; c < n; c++ {
 		var log [][2]int
 		var script [][2]int
-		w := &vFixedHostWrapper{sources: make([]componentstatus.Reporter, 0)}
+		w := &vFixedHostWrapper{sources: make([]componentstatus.Reporter, 0), lastValidEvent: componentstatus.NewEvent(componentstatus.StatusNone)}
 		ninst := 2 + rng.Intn(3)
 		attachAt := make([]int, ninst) // len(log) at the moment instance k finished attaching
 		refAt := make([]int, ninst)    // number of events accepted by instance 0 at that moment
@@ -206,5 +206,11 @@ func TestVerifC11RingLen(t *testing.T) {
 	if err := comp.Start(context.Background(), &vHost{0, &log}); err != nil {
 		t.Fatal(err)
 	}
-	out.Stat("ring_len", comp.hostWrapper.previousEvents.Len())
+	// read through reflection so that the harness still builds when the ring is gone (then: length 0, and the named
+	// obligation ring_cap_is_code says that the model's ring no longer describes the code)
+	n := 0
+	if f := reflect.ValueOf(comp.hostWrapper).Elem().FieldByName("previousEvents"); f.IsValid() && f.Kind() == reflect.Pointer && !f.IsNil() {
+		n = (*ring.Ring)(unsafe.Pointer(f.Pointer())).Len()
+	}
+	out.Stat("ring_len", n)
 }
